@@ -407,6 +407,9 @@ structure Config where
   Aggregation : List AggregationCfg
   BlackList : List Bytes
   Rewriter : List RewriterCfg
+/-- imperatives.go `errFmtAddBlack`, `errFmtAddRewriter` -/
+def errFmtAddBlack : Err := some "addBlack <prefix|sub|regex> <pattern>"
+def errFmtAddRewriter : Err := some "addRewriter <old> <new> <max>"
 /-- imperatives.go `errFmtAddAgg` -/
 def errFmtAddAgg : Err := some "addAgg <avg|count|delta|derive|last|max|min|stdev|sum> [prefix/sub/regex=,..] <fmt> <interval> <wait> [cache=true/false] [dropRaw=true/false]"
 /-- imperatives.go `errFmtAddRoute` -/
